@@ -477,6 +477,17 @@ impl InternerGuard<'_> {
             children: Edges::Version { ref edges },
         } = node
         else {
+            // `python_full_version` can only appear below variables that are ordered before
+            // it. For any other node, it does not appear in the tree at all, and recursing
+            // would insert it below a lower-order variable, so we add it at this level.
+            let var = Variable::Version(MarkerValueVersion::PythonFullVersion);
+            if node.var > var {
+                let edges = Edges::Version {
+                    edges: Edges::from_range(&py_range),
+                };
+                let range = self.create_node(var, edges);
+                return self.and(i, range);
+            }
             // Complexify all nodes recursively.
             let children = node.children.map(i, |node_id| {
                 self.complexify_python_versions(node_id, py_lower, py_upper)
